@@ -16,7 +16,12 @@ import (
 
 	_ "github.com/pion/interceptor/verifh/c03"
 	_ "github.com/pion/interceptor/verifh/c04"
+	_ "github.com/pion/interceptor/verifh/c08"
+	_ "github.com/pion/interceptor/verifh/c10"
+	_ "github.com/pion/interceptor/verifh/c14"
 	_ "github.com/pion/interceptor/verifh/c15"
+	_ "github.com/pion/interceptor/verifh/c20"
+	"github.com/pion/interceptor/verifh/dbg"
 	"github.com/pion/interceptor/verifh/hk"
 	"github.com/pion/interceptor/verifh/litmus"
 	"github.com/pion/interceptor/vsched"
@@ -28,6 +33,8 @@ func main() {
 		os.Exit(2)
 	}
 	switch os.Args[1] {
+	case "dbg":
+		dbg.Run(os.Args[2])
 	case "litmus":
 		r := litmus.Run()
 		fmt.Printf("litmus: cases=%d executions=%d failed=%d race=%v\n", r.Cases, r.Executions, len(r.Failed), vsched.RaceEnabled)
